@@ -78,3 +78,26 @@ pub fn optics(x: &Array2<f64>, min_points: usize, tol: f64, m: Metric, nn: Commo
         Metric::LInf => optics_with(x, min_points, tol, LInfDist, nn),
     }
 }
+
+fn relation_with<D: Distance<f64> + 'static>(x: &Array2<f64>, tol: f64, d: D, nn: CommonNearestNeighbour) -> Result<Vec<Vec<usize>>, String> {
+    use linfa_nn::NearestNeighbour;
+    let index = nn.from_batch(x, d).map_err(|e| e.to_string())?;
+    let mut out = Vec::with_capacity(x.nrows());
+    for row in x.rows() {
+        let mut v: Vec<usize> = index.within_range(row, tol).map_err(|e| e.to_string())?.into_iter().map(|(_, i)| i).collect();
+        v.sort_unstable();
+        out.push(v);
+    }
+    Ok(out)
+}
+
+/// What the index itself answers to "which samples are within `tol` of sample i", for every i —
+/// the very queries DBSCAN and OPTICS make. Used in the tie class only, to learn which convention
+/// (`<` or `<=`) the index applies to pairs at a distance of exactly `tol`.
+pub fn relation(x: &Array2<f64>, tol: f64, m: Metric, nn: CommonNearestNeighbour) -> Result<Vec<Vec<usize>>, String> {
+    match m {
+        Metric::L1 => relation_with(x, tol, L1Dist, nn),
+        Metric::L2 => relation_with(x, tol, L2Dist, nn),
+        Metric::LInf => relation_with(x, tol, LInfDist, nn),
+    }
+}
